@@ -1,6 +1,8 @@
 package govc
 
 import (
+	"strings"
+	"strconv"
 	"fmt"
 	"go/constant"
 	"go/token"
@@ -145,6 +147,32 @@ func goMod(a, b string) string {
 	return sx("ite", sx(">=", a, "0"), sx("mod", a, b), sx("-", sx("mod", sx("-", a), b)))
 }
 
+// maskFacts: for a constant non-negative mask m, (x & m) lies in [0, m], and it is non-zero exactly when x has one
+// of m's bits: (x & m) != 0  <=>  OR over the bits b of m of (x & b) != 0. This makes flag tests written with a
+// combined mask and flag tests written bit by bit say the same thing.
+func (e *FnEnc) maskFacts(x, m string) {
+	n, err := strconv.ParseInt(m, 10, 64)
+	if err != nil || n <= 0 || n > 1<<40 {
+		return
+	}
+	and := func(a string, k int64) string {
+		return e.W.UF("bits.and", []string{"Int", "Int"}, "Int", a, strconv.FormatInt(k, 10))
+	}
+	whole := and(x, n)
+	e.emit("(assert (and (<= 0 " + whole + ") (<= " + whole + " " + m + ")))")
+	var bits []string
+	for b := int64(1); b <= n; b <<= 1 {
+		if n&b != 0 {
+			t := and(x, b)
+			e.emit("(assert (or (= " + t + " 0) (= " + t + " " + strconv.FormatInt(b, 10) + ")))")
+			bits = append(bits, "(not (= "+t+" 0))")
+		}
+	}
+	if len(bits) > 1 {
+		e.emit("(assert (= (not (= " + whole + " 0)) (or " + strings.Join(bits, " ") + ")))")
+	}
+}
+
 func (e *FnEnc) binop(op token.Token, x, y Val, resTy types.Type) string {
 	ty := x.Ty
 	switch {
@@ -216,7 +244,12 @@ func (e *FnEnc) binop(op token.Token, x, y Val, resTy types.Type) string {
 			return sx(">=", x.T, y.T)
 		case token.AND, token.OR, token.XOR, token.SHL, token.SHR, token.AND_NOT:
 			names := map[token.Token]string{token.AND: "and", token.OR: "or", token.XOR: "xor", token.SHL: "shl", token.SHR: "shr", token.AND_NOT: "andnot"}
-			return e.W.UF("bits."+names[op], []string{"Int", "Int"}, "Int", x.T, y.T)
+			t := e.W.UF("bits."+names[op], []string{"Int", "Int"}, "Int", x.T, y.T)
+			if op == token.AND {
+				e.maskFacts(x.T, y.T)
+				e.maskFacts(y.T, x.T)
+			}
+			return t
 		}
 	case isBool(ty):
 		switch op {
